@@ -11,6 +11,7 @@
 """
 from __future__ import annotations
 
+import json
 import math
 import random
 from functools import partial
@@ -57,7 +58,8 @@ def run_spec(ctx, name: str, purpose: str, *, emit: str = "BEH", workers=None, *
         raise tlc.MachineryError(f"Kinematics.tla theorem {inv} fails at spec level ({name}):\n" + "\n".join(states[-1:]))
     if not res.ok:
         raise tlc.MachineryError(f"TLC run {name} not ok:\n" + res.stdout[-1500:])
-    behs = res.tagged(emit) if emit else []
+    # TLC's workers print in a schedule-dependent order: sort, so that a seed fixes every derived choice
+    behs = sorted(res.tagged(emit), key=lambda b: json.dumps(b, sort_keys=True)) if emit else []
     if emit and not behs:
         raise tlc.MachineryError(f"Kinematics.tla ({name}) emitted no behaviour")
     return res, behs
